@@ -122,8 +122,9 @@ class Setup:
         self.total = float(np.sum(np.abs(self.arr)))
 
     def field(self, arr=None):
-        return df.Field(self.mesh, nvdim=self.nv, value=self.arr if arr is None else arr,
-                        vdims=self.vdims, vdim_mapping=self.mapping)
+        return gen.via_history(None, df.Field(
+            self.mesh, nvdim=self.nv, value=self.arr if arr is None else arr,
+            vdims=self.vdims, vdim_mapping=self.mapping))
 
     def expected_mapping(self, f):
         return dict(f.vdim_mapping or {})
